@@ -502,12 +502,19 @@ def install_state_contracts(eng):
 # ---------------------------------------------------------------------------------------------
 
 def make_world(eng, st, with_manager=True):
+    smart = bool(eng.cur_lemma.opts.get("smart")) if eng.cur_lemma is not None else False
     p0 = make_provider(eng, st, 0)
     p1 = make_provider(eng, st, 1)
     state = make_state(eng, st, [p0, p1])
+    if smart:
+        so = st.obj(state)
+        so.cls = cls(eng, "cloudsync.smartsync:SmartSyncState")
+        so.fields["requestset"] = make_absset(eng, st, "requestset")
+        so.fields["excludeset"] = make_absset(eng, st, "excludeset")
+        so.fields["_callbacks"] = st.alloc(HObj("list", "list", items=[]))
     w = {"providers": [p0, p1], "state": state}
     if with_manager:
-        mcls = cls(eng, "cloudsync.sync.manager:SyncManager")
+        mcls = cls(eng, "cloudsync.smartsync:SmartSyncManager" if smart else "cloudsync.sync.manager:SyncManager")
         nmgr = st.alloc(HObj("opaque", None, meta={"tag": "nmgr", "methods": {
             "notify": _nmgr_notify, "notify_from_exception": _nmgr_notify_exc}}))
         translate = st.alloc(HObj("opaque", None, meta={"tag": "translate", "call": _translate_call}))
@@ -566,6 +573,7 @@ def fx_world(eng, st, pname):
     install_temp_contracts(eng)
     install_split_contract(eng)
     install_runnable_models(eng)
+    install_event_models(eng)
     from . import fixtures
     fixtures.install_normalize_path_model(eng)
     if eng.cur_lemma.opts.get("fixed_clock"):
@@ -617,6 +625,12 @@ def fx_world(eng, st, pname):
         flds = {"_NotificationManager__queue": q, "_NotificationManager__handler": handler, "_run_until": NONE}
         return eng_.ok(s, s.alloc(HObj("obj", nc, fields=flds, meta={"tag": "nmgr_real"})))
 
+    def m_event_manager(eng_, s, recv, args, kwargs):
+        return eng_.ok(s, make_event_manager(eng_, s, s.obj(recv), py_of(args[0])))
+
+    def m_event(eng_, s, recv, args, kwargs):
+        return eng_.ok(s, new_event(eng_, s, py_of(args[0]) if args else "ev"))
+
     def m_resolve_file(eng_, s, recv, args, kwargs):
         nm = py_of(args[0])
         side = args[1]
@@ -634,7 +648,8 @@ def fx_world(eng, st, pname):
     r = st.alloc(HObj("opaque", None, fields=fields, meta={"tag": "world", "methods": {"entry": m_entry, "oinfo": m_oinfo, "runnable": m_runnable,
                                                         "cloud_exception": m_cloud_exception,
                                                         "notification_manager": m_notification_manager,
-                                                        "resolve_file": m_resolve_file}}))
+                                                        "resolve_file": m_resolve_file,
+                                                        "event_manager": m_event_manager, "event": m_event}}))
     eng.inputs[pname] = "world"
     return r
 
@@ -644,7 +659,7 @@ def _effect_obj(eng, st, e):
     return st.alloc(HObj("opaque", None, fields={
         "method": C(e.method), "side": C(e.recv) if isinstance(e.recv, (int, str)) else NONE,
         "args": T(e.args), "ok": P.mk_bool(ok), "result": e.result if e.result is not None else NONE,
-        "kwargs": NONE}, meta={"tag": "effect"}))
+        "kwargs": NONE, "held": C(e.kwargs.get("_held", -1) if isinstance(e.kwargs, dict) else -1)}, meta={"tag": "effect"}))
 
 
 def _b_provider_calls(eng, st, recv, args, kwargs):
@@ -732,7 +747,13 @@ def _b_flag_with_oid(eng, st, recv, args, kwargs):
     return eng.ok(st, P.mk_bool(zor(*cs)))
 
 
+def _b_in_set(eng, st, recv, args, kwargs):
+    """in_set(abstract_set, ent)"""
+    return eng.ok(st, P.mk_bool(absset_member(st, args[0], args[1])))
+
+
 def install_dsl():
+    B.BUILTIN_FUNCS["in_set"] = _b_in_set
     B.BUILTIN_FUNCS["all_entries"] = _b_all_entries
     B.BUILTIN_FUNCS["persisted_changed"] = _b_persisted_changed
     B.BUILTIN_FUNCS["has_pending_change"] = _b_flag_with_oid
@@ -961,7 +982,9 @@ def h_state_update(eng, st, self_v, args, kwargs):
         eo = st.obj(ent)
         eo.fields["_ignored"] = fresh_enum(eng, st, "cloudsync.types:IgnoreReason", P.fresh_name("update.ignored"))
         st.touch(eo)
-    st.effects.append(Effect("state", "update", list(args), dict(kwargs), None))
+    kw = dict(kwargs)
+    kw["_held"] = st.ghost.get("held", 0)
+    st.effects.append(Effect("state", "update", list(args), kw, None))
     return eng.ok(st, NONE)
 
 
@@ -997,7 +1020,7 @@ def h_state_finished(eng, st, self_v, args, kwargs):
 
 
 def h_storage_commit(eng, st, self_v, args, kwargs):
-    st.effects.append(Effect("state", "storage_commit", [], {}, None))
+    st.effects.append(Effect("state", "storage_commit", [], {"_held": st.ghost.get("held", 0)}, None))
     ds = st.obj(st.obj(self_v).fields["_dirtyset"])
     ds.meta = dict(ds.meta)
     ds.meta["members"] = {a: BF for a in ds.meta["members"]}
@@ -1398,3 +1421,121 @@ def install_runnable_models(eng):
 
 
 from fractions import Fraction  # noqa: E402
+
+
+# ---------------------------------------------------------------------------------------------
+# EventManager fixtures
+# ---------------------------------------------------------------------------------------------
+
+def h_cursor_prop(name):
+    def h(eng, st, self_v, args, kwargs):
+        o = st.obj(self_v)
+        side = o.meta.get("side")
+        if args:     # setter: handing a cursor to the provider may be rejected
+            res = []
+            s2 = st.clone()
+            allowed = [cls(eng, "cloudsync.exceptions:" + n) for n in ("CloudCursorError", "CloudDisconnectedError", "CloudTokenError", "CloudTemporaryError")]
+            ex = eng.sym_exc(s2, allowed, prefix="set_cursor.exc")
+            s2.effects.append(Effect(side, "set_" + name, list(args), {}, None, tag=BF))
+            res.append((s2, (RAISE, ex)))
+            st.effects.append(Effect(side, "set_" + name, list(args), {}, None, tag=BT))
+            o.fields["_cursor_value"] = args[0]
+            st.touch(o, "_cursor_value")
+            res.append((st, (VAL, NONE)))
+            return res
+        if name == "current_cursor" and "_cursor_value" in o.fields:
+            return eng.ok(st, o.fields["_cursor_value"])
+        v = opt(P.fresh_name("%s.%s" % (o.meta.get("name"), name)), P.fresh("Cursor", "%s.%s" % (o.meta.get("name"), name)))
+        return eng.ok(st, v)
+    return h
+
+
+def h_events(eng, st, self_v, args, kwargs):
+    o = st.obj(self_v)
+    side = o.meta.get("side")
+
+    def gen(eng_, s_):
+        return [(s_, new_event(eng_, s_, "event"))]
+    st.effects.append(Effect(side, "events", [], {}, None))
+    return eng.ok(st, B.new_abslist(eng, st, gen, name="events"))
+
+
+def new_event(eng, st, prefix):
+    p = P.fresh_name(prefix)
+    ex = z3.Int(p + ".exists?kind")
+    st.axiom(z3.And(ex >= 0, ex <= 2))
+    fields = {
+        "otype": fresh_enum(eng, st, "cloudsync.types:OType", p + ".otype"),
+        "oid": opt(p + ".oid", named("str", p + ".oid")),
+        "path": opt(p + ".path", named("str", p + ".path")),
+        "hash": opt(p + ".hash", named("Hash", p + ".hash")),
+        "exists": mk_union([(ex == 0, NONE), (ex == 1, TRUE), (ex == 2, FALSE)]),
+        "mtime": opt(p + ".mtime", named("real", p + ".mtime")),
+        "prior_oid": opt(p + ".prior_oid", named("str", p + ".prior_oid")),
+        "new_cursor": NONE, "accurate": named("bool", p + ".accurate"), "size": named("int", p + ".size"),
+    }
+    st.axiom(z3.Length(z3.String(p + ".oid")) > 0)
+    return st.alloc(HObj("obj", cls(eng, "cloudsync.event:Event"), fields=fields, meta={"dataclass": True, "tag": "event"}))
+
+
+def h_dc_replace(eng, st, recv, args, kwargs):
+    src = args[0]
+    o = st.obj(src)
+    n = o.copy()
+    n.meta = dict(o.meta)
+    for k, v in kwargs.items():
+        n.fields[k] = v
+    return eng.ok(st, st.alloc(n))
+
+
+B.BUILTIN_FUNCS["dataclasses.replace"] = h_dc_replace
+
+
+def _state_effect(name):
+    def h(eng, st, self_v, args, kwargs):
+        st.effects.append(Effect("state", name, list(args), {"_held": st.ghost.get("held", 0)}, None))
+        if name == "storage_get_data":
+            return eng.ok(st, opt(P.fresh_name("stored"), P.fresh("Cursor", "stored")))
+        return eng.ok(st, NONE)
+    return h
+
+
+def install_event_models(eng):
+    eng.handlers["cloudsync.provider:Provider.current_cursor"] = h_cursor_prop("current_cursor")
+    eng.handlers["cloudsync.provider:Provider.latest_cursor"] = h_cursor_prop("latest_cursor")
+    eng.handlers["cloudsync.provider:Provider.events"] = h_events
+    for nm in ("storage_get_data", "storage_update_data", "storage_delete_tag"):
+        eng.handlers["cloudsync.sync.state:SyncState." + nm] = _state_effect(nm)
+
+
+def make_event_manager(eng, st, w, side):
+    ecls = cls(eng, "cloudsync.event:EventManager")
+    pre = "em%d" % side
+    fields = {
+        "provider": w.fields["providers"].items[side], "state": w.fields["state"], "side": C(side),
+        "_EventManager__nmgr": w.fields["nmgr"], "_queue": st.alloc(HObj("list", "list", items=[])),
+        "need_auth": named("bool", pre + ".need_auth"),
+        "cursor": opt(pre + ".cursor", named("Cursor", pre + ".cursor")),
+        "_cursor_tag": named("str", pre + "._cursor_tag"), "_walk_tag": opt(pre + "._walk_tag", named("str", pre + "._walk_tag")),
+        "need_walk": named("bool", pre + ".need_walk"),
+        "_root_path": opt(pre + "._root_path", named("str", pre + "._root_path")),
+        "_root_oid": opt(pre + "._root_oid", named("str", pre + "._root_oid")),
+        "_root_validated": named("bool", pre + "._root_validated"), "_first_do": named("bool", pre + "._first_do"),
+        "label": named("str", pre + ".label"),
+        "in_backoff": named("real", pre + ".in_backoff"),
+        "_Runnable__shutdown": named("bool", pre + ".shutdown"), "_Runnable__stopping": named("bool", pre + ".stopping"),
+        "_Runnable__stopped": named("bool", pre + ".stopped"), "_Runnable__clear_on_success": TRUE,
+        "_Runnable__interrupt": NONE, "_Runnable__thread": NONE, "service_name": C("events"), "_run_until": NONE,
+        "reauthenticate": st.alloc(HObj("opaque", None, meta={"tag": "reauth", "call": _reauth_call})),
+    }
+    return st.alloc(HObj("obj", ecls, fields=fields, meta={"tag": "event_manager"}))
+
+
+def _reauth_call(eng, st, fv, args, kwargs):
+    res = []
+    s2 = st.clone()
+    s2.effects.append(Effect("app", "reauthenticate", [], {}, None, tag=BF))
+    res.append((s2, (RAISE, eng.sym_exc(s2, [ClassRef("NotImplementedError"), cls(eng, "cloudsync.exceptions:CloudTokenError")], prefix="reauth.exc"))))
+    st.effects.append(Effect("app", "reauthenticate", [], {}, None, tag=BT))
+    res.append((st, (VAL, NONE)))
+    return res
